@@ -253,7 +253,11 @@ func genesisCheck(in, out string, every int) {
 		checks++
 		vs, nc := boundaryCheck(c, blk)
 		for _, v := range vs {
-			h.line("MON " + v)
+			if strings.HasPrefix(v, "GSKIP ") {
+				h.line(v)
+			} else {
+				h.line("MON " + v)
+			}
 		}
 		h.line(fmt.Sprintf("GCHK %d", blk))
 		if blk == mid && nc != nil {
@@ -308,6 +312,14 @@ func boundaryCheck(c *Chain, blk int) ([]string, *Chain) {
 		v = append(v, x+fmt.Sprintf(" (block %d)", blk))
 	}
 	nc, rerr := restart(c, exp)
+	if rerr != nil && strings.Contains(rerr.Error(), "expiration time of authorization") {
+		// SDK x/authz (not a custom module, outside the claim): a grant expiring exactly at the block time is not pruned yet
+		// (BeginBlock removes expiry < block time) but authz InitGenesis refuses it.  Such a grant can no longer be used
+		// in any later block, so it is dropped from the exported authz state and the restart is retried.
+		exp.AppState = stripExpiringGrants(exp.AppState, c.Time)
+		v = append(v, fmt.Sprintf("GSKIP authz grant expiring exactly at the export time dropped before re-import (block %d)", blk))
+		nc, rerr = restart(c, exp)
+	}
 	if rerr != nil {
 		return append(v, fmt.Sprintf("C16 restart from the export at block %d fails: %s", blk, trunc(rerr.Error(), 300))), nil
 	}
@@ -431,7 +443,11 @@ func rgenesisCheck(in, out string, every int) {
 		checks++
 		v, _ := boundaryCheck(c, blk)
 		for _, x := range v {
-			h.line("MON " + x)
+			if strings.HasPrefix(x, "GSKIP ") {
+				h.line(x)
+			} else {
+				h.line("MON " + x)
+			}
 		}
 		h.line(fmt.Sprintf("GCHK %d", blk))
 	}
@@ -453,4 +469,44 @@ func init() {
 		}
 		genesisCheck(args[0], args[1], every)
 	}
+}
+
+// stripExpiringGrants removes from the exported authz genesis the grants whose expiration is not after `now`.
+func stripExpiringGrants(appState json.RawMessage, now int64) json.RawMessage {
+	var gs map[string]json.RawMessage
+	if err := json.Unmarshal(appState, &gs); err != nil {
+		return appState
+	}
+	var az map[string]json.RawMessage
+	if err := json.Unmarshal(gs["authz"], &az); err != nil {
+		return appState
+	}
+	var grants []map[string]json.RawMessage
+	if err := json.Unmarshal(az["authorization"], &grants); err != nil {
+		return appState
+	}
+	var keep []map[string]json.RawMessage
+	for _, g := range grants {
+		var e *time.Time
+		if raw, ok := g["expiration"]; ok && string(raw) != "null" {
+			var t time.Time
+			if err := json.Unmarshal(raw, &t); err == nil {
+				e = &t
+			}
+		}
+		if e != nil && e.Unix() <= now {
+			continue
+		}
+		keep = append(keep, g)
+	}
+	if keep == nil {
+		keep = []map[string]json.RawMessage{}
+	}
+	az["authorization"], _ = json.Marshal(keep)
+	gs["authz"], _ = json.Marshal(az)
+	out, err := json.Marshal(gs)
+	if err != nil {
+		return appState
+	}
+	return out
 }
